@@ -584,6 +584,14 @@ class Engine:
             else:
                 raise Unsupported("`is` on non-None values")
             return r if isinstance(op, ast.Is) else z3.Not(r)
+        if isinstance(op, (ast.In, ast.NotIn)):
+            from .values import ExcType
+            if isinstance(a, ExcType):
+                # `type(exc) in <tuple of classes>`: an exact-class test. For an exception that is an instance of a listed class the answer
+                # is True only if its own class is listed - it may as well be a proper subclass: an unconstrained boolean
+                listed = isinstance(b, Val) and getattr(b.ty, "name", "") == "ExcTuple" and a.cls == "retriable_exceptions"
+                r = z3.Bool(fresh_name("exact_class_is_listed")) if listed else z3.BoolVal(False)
+                return r if isinstance(op, ast.In) else z3.Not(r)
         if isinstance(op, ast.In):
             return contains(b, a)
         if isinstance(op, ast.NotIn):
